@@ -139,9 +139,39 @@ def sim_case(rng, profile, kind, tier):
          "cap": rng.choice([625000, 1250000, 2500000]), "rtt": rng.choice([20, 40, 80, 150]),
          "loss": 0, "burstEv": 0, "burstLen": 0, "agg": 0, "idle": [], "gap": 5, "nonrtx": 10, "mtu": [],
          "dur": 12000, "dumpMax": 150 if not big else 250, "traceMax": 120 if not big else 200, "clean": False, "kind": kind}
+    # layer 3: the first replayMax calls are recorded and replayed by the full Coq model from the initial state
+    c["replayMax"] = 150 if not big else 1200
     bdp = c["cap"] * c["rtt"] // 1000
     c["queue"] = max(20000, bdp * rng.choice([1, 2]))
-    if kind == "clean":
+    if kind in ("rp-slow", "rp-mid"):
+        # short histories replayed WHOLE by the model.  rp-slow: 20..40 KB/s for 13 s (~600-1000 calls): STARTUP, DRAIN,
+        # PROBE_BW gain cycling, recovery (conservation, growth), min_rtt expiry after 10 s -> PROBE_RTT and its exit;
+        # rp-mid: 150..600 KB/s for 3 s (STARTUP -> DRAIN -> PROBE_BW, recovery, losses / aggregation / idle phases / MTU raise)
+        c["dumpMax"], c["traceMax"] = 40, 40
+        if kind == "rp-slow":
+            c["cap"] = rng.choice([20000, 25000, 30000, 40000])
+            c["rtt"] = rng.choice([10, 20, 40])
+            c["dur"] = 13000
+            c["loss"] = rng.choice([0, 0, 5, 10])
+            c["agg"] = rng.choice([0, 0, 10])
+            c["gap"] = rng.choice([0, 5, 20])
+            c["nonrtx"] = rng.choice([0, 10, 30])
+            c["queue"] = max(8 * c["mds"], 2 * c["cap"] * c["rtt"] // 1000)
+            c["idle"] = [[6000, 6300]] if rng.random() < 0.3 else []
+            c["replayMax"] = 1100 if not big else 2500
+        else:
+            c["cap"] = rng.choice([150000, 300000, 600000])
+            c["rtt"] = rng.choice([10, 20])
+            c["dur"] = 3000
+            c["loss"] = rng.choice([0, 5, 20])
+            c["agg"] = rng.choice([0, 5])
+            c["gap"] = rng.choice([0, 20])
+            c["nonrtx"] = rng.choice([0, 30])
+            c["idle"] = [[1500, 1700]] if rng.random() < 0.4 else []
+            c["mtu"] = [[rng.randrange(300, 2500), 1452]] if rng.random() < 0.5 else []
+            c["queue"] = max(15000, c["cap"] * c["rtt"] // 1000 * rng.choice([1, 2]))
+            c["replayMax"] = 700 if not big else 2500
+    elif kind == "clean":
         c["clean"] = True
         c["mtu"] = [[rng.randrange(500, 6000), 1452]] if rng.random() < 0.5 else []
         c["queue"] = max(40000, 2 * bdp)
@@ -209,6 +239,16 @@ def sim_case(rng, profile, kind, tier):
     return {"k": "sim", "sim": c}
 
 
+def api_case(rng, profile, tier):
+    """calls limited only by the precondition of the layer 3 theorems (fevs_ok), see c12Api in c12_replay_test.go"""
+    c = {"seed": rng.randrange(1, 2**31), "profile": profile, "mds": rng.choice([1200, 1252, 1280]),
+         "n": 350 if tier == "quick" else 900}
+    if rng.random() < 0.3:
+        c["maxPkts"] = rng.choice([8, 40, 200])
+        c["icwPkts"] = min(c["maxPkts"], rng.choice([4, 10, 32]))
+    return {"k": "api", "api": c}
+
+
 def gen_seed_cases(rng, n):
     out = []
     for _ in range(n):
@@ -232,7 +272,15 @@ def gen(rng, tier):
     for prof, kind in zip(rng.sample(PROFILES, 2), ["smallmax-bdp", "smallmax"]):
         cases.append(sim_case(rng, prof, kind, tier))
     cases.append(sim_case(rng, rng.choice(PROFILES), "fat", tier))
+    # layer 3: short histories replayed whole by the full model, every profile
+    for prof in PROFILES:
+        cases.append(sim_case(rng, prof, "rp-slow", tier))
+        cases.append(sim_case(rng, prof, "rp-mid", tier))
+    for prof in PROFILES * (2 if tier == "quick" else 12):
+        cases.append(api_case(rng, prof, tier))
     if tier != "quick":
+        for _ in range(12):
+            cases.append(sim_case(rng, rng.choice(PROFILES), rng.choice(["rp-slow", "rp-mid"]), tier))
         for _ in range(40):
             cases.append(sim_case(rng, rng.choice(PROFILES), rng.choice(["clean", "lossy", "lossy", "probertt", "applimited"]), tier))
         for _ in range(24):
@@ -266,9 +314,9 @@ PROF_INDEX = {"standard": 0, "conservative": 1, "aggressive": 2}
 
 def replay_to_coq(c, o):
     """whole-trace replay term of a sim case (layer 3), None when the case recorded none"""
-    if c["k"] != "sim" or not o.get("replay") or o.get("replayOver"):
+    if c["k"] not in ("sim", "api") or not o.get("replay") or o.get("replayOver"):
         return None
-    sim = c["sim"]
+    sim = c[c["k"]]
     m = sim["mds"]
     if sim.get("maxPkts", 0) > 0:
         icw = (sim.get("icwPkts") or 32) * m
@@ -323,6 +371,9 @@ def klass(c, o):
         return "pq:" + ("grew" if len(caps) > 1 else "fixed") + ("+gaps" if gaps else "") + ("+wrap" if wrapped else "")
     if k == "wf":
         return "wf:" + c["inst"]
+    if k == "api":
+        st = o.get("stats") or {}
+        return "api:%s:modes=%s" % (c["api"]["profile"], "".join(map(str, st.get("modes", []))))
     if k == "sim":
         st = o.get("stats") or {}
         return "sim:%s:%s:modes=%s:rec=%s%s%s" % (c["sim"]["kind"], c["sim"]["profile"], "".join(map(str, st.get("modes", []))),
@@ -333,7 +384,7 @@ def klass(c, o):
 
 
 def nontrivial(c, o):
-    if c["k"] == "sim":
+    if c["k"] in ("sim", "api"):
         return (o.get("stats") or {}).get("cong", 0) >= 100
     return len(o.get("steps") or []) >= 10
 
@@ -366,7 +417,7 @@ def search(ctx, disagreeing):
 
 def trim(o):
     """implementation output without the bulky per-step dumps (replays re-run the case anyway)"""
-    return {k: v for k, v in o.items() if k not in ("steps", "dumps", "trace")}
+    return {k: v for k, v in o.items() if k not in ("steps", "dumps", "trace", "replay", "replayObs")}
 
 
 RULE = ("seeded generator. Layers 2-3: a discrete-event bottleneck simulator inside the Go harness (capacity, RTT, queue, random and burst "
@@ -447,6 +498,7 @@ def run(ctx):
     if not proof_ok:
         ctx.say("PROOF STAGE BROKEN: " + json.dumps({k: pinfo[k] for k in pinfo if k != "theorems"})[:3000])
     mism, corr_ok, corr_err, compared = [], True, "", 0
+    n_replays, n_replay_events, replay_missing = 0, 0, []
     if outs:
         terms, idxmap = [], []
         for i, (c, o) in enumerate(zip(cases, outs)):
@@ -454,6 +506,15 @@ def run(ctx):
             if t is not None:
                 terms.append(t)
                 idxmap.append(i)
+            t = replay_to_coq(c, o)
+            if t is not None:
+                terms.append(t)
+                idxmap.append(i)
+                n_replays += 1
+                n_replay_events += o.get("replayEvents", 0)
+            elif ((c["k"] == "sim" and c["sim"].get("replayMax", 0) > 0) or c["k"] == "api") and o.get("ok") is not False:
+                # a sim that was asked for a replay and delivered none (field overflow in the packed format, missing output)
+                replay_missing.append(i)
         if seed_term:
             terms.append(seed_term)
             idxmap.append(-1)
@@ -465,9 +526,13 @@ def run(ctx):
             corr_ok, corr_err = False, err
             ctx.say("CORRESPONDENCE EVALUATION FAILED: " + err)
         seed_mism = any(idxmap[j] == -1 for j in mm)
-        mism = [idxmap[j] for j in mm if idxmap[j] >= 0]
+        mism = sorted({idxmap[j] for j in mm if idxmap[j] >= 0})
         if seed_mism:
             corr_ok, corr_err = False, "seedPacketSize model disagrees with the implementation"
+        if replay_missing:
+            corr_ok, corr_err = False, "sim case %d recorded no replayable history (%s)" % (
+                replay_missing[0], outs[replay_missing[0]].get("replayOver", "no replay output"))
+        ctx.say("whole-trace replays: %d histories, %d calls replayed by the full model" % (n_replays, n_replay_events))
     hist, nontriv = {}, set()
     supporting = {"label": "SUPPORTING EVIDENCE ONLY - no theorem covers throughput/convergence; loss-free, never app-limited "
                            "simulated bottleneck; ratio = bytes delivered after the first 2 s / (capacity * time)",
@@ -513,6 +578,7 @@ def run(ctx):
            "traces_validated_against_impl": compared, "model_impl_disagreements": len(mism), "input_classes": hist,
            "supporting_only": supporting,
            "sim_events_checked_on_impl": sum((o.get("stats") or {}).get("events", 0) for o in outs),
+           "sim_histories_replayed_whole_in_coq": n_replays, "sim_calls_replayed_in_coq": n_replay_events,
            "sim_events_recomputed_in_coq": sum(len(o.get("dumps") or []) for c, o in zip(cases, outs) if to_coq(c, o) is not None),
            "sim_events_pacing_floor_binding": sum((o.get("stats") or {}).get("floorEvents", 0) for o in outs),
            "sim_events_window_cap_binding": sum((o.get("stats") or {}).get("capEvents", 0) for o in outs),
